@@ -95,7 +95,21 @@ func runM2(c *core.Ctx) {
 				}
 				return false
 			}
+			// a value looked up in a map keyed by the function name is selection by name, too
+			byNameMap := false
+			ast.Inspect(fd.Body, func(m ast.Node) bool {
+				if ie, ok := m.(*ast.IndexExpr); ok {
+					if mt, ok := p.TypeOf(ie.X).(*types.Map); ok {
+						if b, ok := mt.Key().Underlying().(*types.Basic); ok && b.Kind() == types.String {
+							byNameMap = true
+						}
+					}
+				}
+				return true
+			})
 			switch {
+			case byNameMap && !(has("EntryOff") || has("entryOff")):
+				verdict = "BAD"
 			case len(fields) == 0:
 				verdict = "positional"
 			case has("EntryOff") || has("entryOff"):
